@@ -76,10 +76,25 @@ def run(mod, tier, seed, replay=None):
         for i in range(len(cases)):
             if impl[i] == "2":
                 verdict[i] = "0 0 panic"
+    pyor = getattr(mod, "PY_ORACLES", {})
+    n_py = 0
+    for i, c in enumerate(cases):
+        f = pyor.get(c.op)
+        if f is not None:
+            n_py += 1
+            v = f(c, impl[i])
+            if v.startswith("0"):
+                verdict.setdefault(i, v) if not verdict.get(i, "").startswith("0") else None
+                verdict[i] = v if not verdict.get(i, "").startswith("0") else verdict[i]
+            elif i not in verdict:
+                verdict[i] = v
 
     def impl_fails(c):
         o = run_parallel(os.path.join(BIN, "fn"), [c.line()])[0]
         if panic_bad and o == "2":
+            return True
+        f = getattr(mod, "PY_ORACLES", {}).get(c.op)
+        if f is not None and f(c, o).startswith("0"):
             return True
         for oo in oracles_of(c.op):
             v = run_parallel(os.path.join(BIN, "model_driver"), ["%s | %s" % (c.line(oo), o)])[0]
@@ -176,7 +191,7 @@ def run(mod, tier, seed, replay=None):
         "rule": mod.RULE,
         "samples": samples,
         "outcome_histogram": dict(hist), "generator_streams": dict(tags), "input_size_histogram": dict(sizes),
-        "model_vs_impl_mismatches": len(mism), "oracle_evaluations": len(olines),
+        "model_vs_impl_mismatches": len(mism), "oracle_evaluations": len(olines) + n_py,
         "oracle_failures": sum(len(v) for v in groups.values()), "impl_panics": len(panics),
     }
     return rep.finish()
